@@ -1403,12 +1403,17 @@ func (vc *VC) chanInvOf(ch ssa.Value) *InvDef {
 	return vc.w.chanInvs[named.Obj().Pkg().Path()+"."+named.Obj().Name()+"."+fieldName(fa)]
 }
 
-func (vc *VC) chanInvTerm(ci *InvDef, chv SVal, v string, et types.Type, st *State) (string, *Env) {
+func (vc *VC) chanInvTerm(ci *InvDef, chv SVal, v string, et types.Type, st *State, ownerOf *SVal) (string, *Env) {
 	env := &Env{vc: vc, cur: st, old: vc.entry, vars: map[string]SVal{}, block: vc.curBlock}
 	if tp, ok := vc.w.tpkgs[ci.Pkg]; ok && tp.Types != nil {
 		env.pkg = tp.Types
 	}
-	r := env.withVars(map[string]SVal{ci.Var: {t: v, typ: et, sort: vc.d.sortOf(et)}, "ch": chv}, func() SVal { return env.eval(ci.Body) })
+	vars := map[string]SVal{ci.Var: {t: v, typ: et, sort: vc.d.sortOf(et)}, "ch": chv}
+	if chv.st == nil && ownerOf != nil {
+		// "owner": the struct that holds the channel (for a channel kept in a struct field)
+		vars["owner"] = *ownerOf
+	}
+	r := env.withVars(vars, func() SVal { return env.eval(ci.Body) })
 	return r.t, env
 }
 
@@ -1443,7 +1448,7 @@ func (vc *VC) chanInvRecv(ch ssa.Value, v string, et types.Type, st *State) {
 			vc.fail("channel invariant of %s assumed at a receive, but these senders are not checked in this claim: %s", ci.Type, strings.Join(missing, ", "))
 		}
 		vc.checkChanInvFields(ci, et)
-		f, env := vc.chanInvTerm(ci, SVal{t: vc.val(ch), typ: ch.Type(), sort: "Int"}, v, et, st)
+		f, env := vc.chanInvTerm(ci, SVal{t: vc.val(ch), typ: ch.Type(), sort: "Int"}, v, et, st, vc.chanOwner(ch))
 		env.flushSide(vc.reach[vc.curBlock])
 		vc.assume(f)
 	}
@@ -1452,7 +1457,7 @@ func (vc *VC) chanInvRecv(ch ssa.Value, v string, et types.Type, st *State) {
 func (vc *VC) chanInvSend(ch, x ssa.Value, st *State) {
 	if ci := vc.chanInvOf(ch); ci != nil {
 		et := ch.Type().Underlying().(*types.Chan).Elem()
-		f, env := vc.chanInvTerm(ci, SVal{t: vc.val(ch), typ: ch.Type(), sort: "Int"}, vc.val(x), et, st)
+		f, env := vc.chanInvTerm(ci, SVal{t: vc.val(ch), typ: ch.Type(), sort: "Int"}, vc.val(x), et, st, vc.chanOwner(ch))
 		reach := vc.reach[vc.curBlock]
 		env.flushSide(reach)
 		vc.oblige("chan.send.inv", "", reach, f, "value sent on "+ci.Type+" satisfies the channel invariant")
@@ -1524,4 +1529,17 @@ func (vc *VC) checkChanInvFields(ci *InvDef, et types.Type) {
 			}
 		}
 	}
+}
+
+// chanOwner: for a channel loaded from a struct field (c = *(&x.f)), the struct pointer x.
+func (vc *VC) chanOwner(ch ssa.Value) *SVal {
+	u, ok := ch.(*ssa.UnOp)
+	if !ok || u.Op != token.MUL {
+		return nil
+	}
+	fa, ok := u.X.(*ssa.FieldAddr)
+	if !ok {
+		return nil
+	}
+	return &SVal{t: vc.val(fa.X), typ: fa.X.Type(), sort: "Int"}
 }
